@@ -34,7 +34,7 @@ RECURSIVE Flat(_)
 \* the flat item sequence of a list or a concatenation (C11: "lists and concatenations as the flat sequences of their items")
 Flat(v) == IF v.t = "list" THEN v.v
            ELSE IF v.t = "concat" THEN Flat(v.l) \o Flat(v.r)
-           ELSE <<v>>
+           ELSE <<v>>            \* (a slice inside a concatenation counts as one item for length and indexing)
 IsSeqLike(v) == v.t \in {"list", "concat"}
 
 (* ---------------------------------------------------------------- truth (C10): exactly unit and false are false *)
